@@ -237,7 +237,7 @@ func (s *Service) complete(v world.Val, sub ast.SelectionSet, vars map[string]in
 	case "z":
 		return nil, nil
 	case "s":
-		return v["v"], nil
+		return world.ScalarGo(v), nil
 	case "r":
 		e := s.W.Ents[v["id"].(string)]
 		if e == nil {
